@@ -273,13 +273,79 @@ func prec(e Expr) int {
 
 // Text prints the expression: binary operators with single surrounding spaces (as in every
 // documented example), minimal parentheses, explicit "paren" nodes for redundant ones.
-func (e Expr) Text() string { return e.text(" ") }
+func (e Expr) Text() string { return e.text(&speller{}) }
 
 // WideText is the same expression with every blank outside string literals doubled; it must
 // mean the same.
-func (e Expr) WideText() string { return e.text("  ") }
+func (e Expr) WideText() string { return e.text(&speller{mode: "wide"}) }
 
-func (e Expr) text(sp string) string {
+// Spelled prints the same tree with another spacing (see spellings).
+func (e Expr) Spelled(mode string) string { return e.text(&speller{mode: mode}) }
+
+// spellings of the blanks OUTSIDE string literals; the tree and so the value are the same.
+//
+//	""      single blanks (the documented style)
+//	wide    every blank doubled
+//	tight   no blank around == != <= >= && || ? : and after commas
+//	tabs    tabs instead of / next to the blanks
+//	mixed   tight on one side, blank on the other, alternating
+//
+// The arithmetic operators and < > always keep one plain blank on each side: vuego documents
+// that they are only operators when surrounded by spaces (a-b and a/b are paths).
+var spellings = []string{"", "wide", "tight", "tabs", "mixed"}
+
+type speller struct {
+	mode string
+	n    int // alternation counter of the mixed mode
+}
+
+// around returns the text before and after a token of kind arith | sym | tern | comma.
+func (s *speller) around(kind string) (string, string) {
+	switch s.mode {
+	case "wide":
+		if kind == "comma" {
+			return "", "  "
+		}
+		return "  ", "  "
+	case "tight":
+		if kind == "arith" {
+			return " ", " "
+		}
+		return "", ""
+	case "tabs":
+		switch kind {
+		case "arith":
+			return "\t ", " \t"
+		case "comma":
+			return "", "\t"
+		}
+		return "\t", "\t"
+	case "mixed":
+		s.n++
+		switch kind {
+		case "arith":
+			if s.n%2 == 0 {
+				return "  ", " "
+			}
+			return " ", "  "
+		case "comma":
+			if s.n%2 == 0 {
+				return "", ""
+			}
+			return " ", " "
+		}
+		if s.n%2 == 0 {
+			return "", " "
+		}
+		return " ", ""
+	}
+	if kind == "comma" {
+		return "", " "
+	}
+	return " ", " "
+}
+
+func (e Expr) text(sp *speller) string {
 	switch e.K {
 	case "path", "int", "float", "bool":
 		return e.V
@@ -294,11 +360,15 @@ func (e Expr) text(sp string) string {
 		}
 		return "!" + in.text(sp)
 	case "call":
-		var as []string
-		for _, a := range e.A {
-			as = append(as, a.text(sp))
+		out := e.V + "("
+		for i, a := range e.A {
+			if i > 0 {
+				l, r := sp.around("comma")
+				out += l + "," + r
+			}
+			out += a.text(sp)
 		}
-		return e.V + "(" + strings.Join(as, ","+sp) + ")"
+		return out + ")"
 	case "tern":
 		p := func(x Expr) string {
 			if x.K == "tern" {
@@ -306,11 +376,22 @@ func (e Expr) text(sp string) string {
 			}
 			return x.text(sp)
 		}
-		return p(e.A[0]) + sp + "?" + sp + p(e.A[1]) + sp + ":" + sp + p(e.A[2])
+		c := p(e.A[0])
+		ql, qr := sp.around("tern")
+		x := p(e.A[1])
+		cl, cr := sp.around("tern")
+		return c + ql + "?" + qr + x + cl + ":" + cr + p(e.A[2])
 	case "bin":
 		me := prec(e)
 		l, r := e.A[0], e.A[1]
-		ls, rs := l.text(sp), r.text(sp)
+		ls := l.text(sp)
+		kind := "sym"
+		switch e.V {
+		case "+", "-", "*", "/", "%", "<", ">":
+			kind = "arith"
+		}
+		bl, br := sp.around(kind)
+		rs := r.text(sp)
 		// left-associative: the right operand needs parentheses at equal precedence;
 		// comparisons are never chained bare (languages disagree on their relative precedence)
 		if prec(l) < me || (me == 4 && prec(l) == 4) {
@@ -319,7 +400,7 @@ func (e Expr) text(sp string) string {
 		if prec(r) <= me {
 			rs = "(" + rs + ")"
 		}
-		return ls + sp + e.V + sp + rs
+		return ls + bl + e.V + br + rs
 	}
 	return "?" + e.K
 }
